@@ -21,6 +21,9 @@ structure SndBelow (s : Tcb) : Prop where
   queue : ∀ t ∈ s.outgoing.retransmit, SegBelow s.snd.iss s.sent t.segment
   /-- headers waiting on the one-shot queue carry neither SYN nor FIN -/
   plain : ∀ h ∈ s.outgoing.oneshot, h.ctl.syn = false ∧ h.ctl.fin = false
+  /-- everything queued carries our ports -/
+  qports : ∀ t ∈ s.outgoing.retransmit, t.segment.hdr.srcPort = s.localPort ∧ t.segment.hdr.dstPort = s.remotePort
+  oports : ∀ h ∈ s.outgoing.oneshot, h.srcPort = s.localPort ∧ h.dstPort = s.remotePort
 
 /-- room for all queued text and a FIN below 2^31 sequence numbers -/
 def Room (s : Tcb) : Prop := s.sent + s.outgoing.text.length + 1 < 2147483648
@@ -28,11 +31,13 @@ def Room (s : Tcb) : Prop := s.sent + s.outgoing.text.length + 1 < 2147483648
 /-- `SndBelow` reads ISS, SND.NXT and the retransmission queue only -/
 theorem SndBelow.congr {s s' : Tcb} (h : SndBelow s) (h1 : s'.snd.iss = s.snd.iss)
     (h2 : s'.snd.nxt = s.snd.nxt) (h3 : ∀ t ∈ s'.outgoing.retransmit, t ∈ s.outgoing.retransmit)
-    (h4 : ∀ x ∈ s'.outgoing.oneshot, x ∈ s.outgoing.oneshot) :
+    (h4 : ∀ x ∈ s'.outgoing.oneshot, x ∈ s.outgoing.oneshot)
+    (h5 : s'.localPort = s.localPort) (h6 : s'.remotePort = s.remotePort) :
     SndBelow s' := by
   have hs : s'.sent = s.sent := by unfold sent; rw [h1, h2]
   exact ⟨by rw [hs]; exact h.pos, fun t ht => by rw [hs, h1]; exact h.queue t (h3 t ht),
-    fun x hx => h.plain x (h4 x hx)⟩
+    fun x hx => h.plain x (h4 x hx), fun t ht => by rw [h5, h6]; exact h.qports t (h3 t ht),
+    fun x hx => by rw [h5, h6]; exact h.oports x (h4 x hx)⟩
 
 /-- ISS and SND.NXT untouched, the invariant carried over -/
 structure SndKeep (s s' : Tcb) : Prop where
@@ -40,37 +45,52 @@ structure SndKeep (s s' : Tcb) : Prop where
   nxt : s'.snd.nxt = s.snd.nxt
   text : s'.outgoing.text = s.outgoing.text
   below : SndBelow s → SndBelow s'
+  lp : s'.localPort = s.localPort
+  rp : s'.remotePort = s.remotePort
 
-theorem SndKeep.refl (s : Tcb) : SndKeep s s := ⟨rfl, rfl, rfl, id⟩
+theorem SndKeep.refl (s : Tcb) : SndKeep s s := ⟨rfl, rfl, rfl, id, rfl, rfl⟩
 
 theorem SndKeep.trans {a b c : Tcb} (h1 : SndKeep a b) (h2 : SndKeep b c) : SndKeep a c :=
-  ⟨h2.iss.trans h1.iss, h2.nxt.trans h1.nxt, h2.text.trans h1.text, fun h => h2.below (h1.below h)⟩
+  ⟨h2.iss.trans h1.iss, h2.nxt.trans h1.nxt, h2.text.trans h1.text, fun h => h2.below (h1.below h),
+    h2.lp.trans h1.lp, h2.rp.trans h1.rp⟩
 
 /-- fields `SndBelow` reads are literally the same -/
 theorem SndKeep.of_eq {s s' : Tcb} (h1 : s'.snd.iss = s.snd.iss) (h2 : s'.snd.nxt = s.snd.nxt)
     (h3 : s'.outgoing.retransmit = s.outgoing.retransmit) (h4 : s'.outgoing.text = s.outgoing.text)
-    (h5 : s'.outgoing.oneshot = s.outgoing.oneshot) :
+    (h5 : s'.outgoing.oneshot = s.outgoing.oneshot)
+    (h6 : s'.localPort = s.localPort) (h7 : s'.remotePort = s.remotePort) :
     SndKeep s s' :=
   ⟨h1, h2, h4, fun h => h.congr h1 h2 (fun t ht => by rw [h3] at ht; exact ht)
-    (fun x hx => by rw [h5] at hx; exact hx)⟩
+    (fun x hx => by rw [h5] at hx; exact hx) h6 h7, h6, h7⟩
 
 /-- a header without SYN and FIN goes to the one-shot queue -/
-theorem sndKeep_enqueue_plain (s : Tcb) (hd : Hdr) (hs : hd.ctl.syn = false) (hf : hd.ctl.fin = false) :
+theorem sndKeep_enqueue_plain (s : Tcb) (hd : Hdr) (hs : hd.ctl.syn = false) (hf : hd.ctl.fin = false)
+    (hp : hd.srcPort = s.localPort ∧ hd.dstPort = s.remotePort) :
     SndKeep s (s.enqueueBuilt hd) := by
   unfold enqueueBuilt
   rw [if_neg (by simp [hs, hf])]
-  refine ⟨rfl, rfl, rfl, fun h => ⟨h.pos, h.queue, fun x hx => ?_⟩⟩
-  simp only [List.mem_append, List.mem_singleton] at hx
-  rcases hx with hx | rfl
-  · exact h.plain x hx
-  · exact ⟨hs, hf⟩
+  refine ⟨rfl, rfl, rfl, fun h => ⟨h.pos, h.queue, fun x hx => ?_, h.qports, fun x hx => ?_⟩, rfl, rfl⟩
+  · simp only [List.mem_append, List.mem_singleton] at hx
+    rcases hx with hx | rfl
+    · exact h.plain x hx
+    · exact ⟨hs, hf⟩
+  · simp only [List.mem_append, List.mem_singleton] at hx
+    rcases hx with hx | rfl
+    · exact h.oports x hx
+    · exact hp
 
 /-- a SYN (no FIN) at ISS joins the retransmission queue below SND.NXT -/
 theorem sndKeep_enqueue_syn (s : Tcb) (hd : Hdr) (hs : hd.ctl.syn = true) (hf : hd.ctl.fin = false)
-    (hseq : hd.seq = s.snd.iss) : SndKeep s (s.enqueueBuilt hd) := by
+    (hseq : hd.seq = s.snd.iss) (hp : hd.srcPort = s.localPort ∧ hd.dstPort = s.remotePort) :
+    SndKeep s (s.enqueueBuilt hd) := by
   unfold enqueueBuilt
   rw [if_pos (by simp [hs])]
-  refine ⟨rfl, rfl, rfl, fun h => ⟨h.pos, fun t ht => ?_, h.plain⟩⟩
+  refine ⟨rfl, rfl, rfl, fun h => ⟨h.pos, fun t ht => ?_, h.plain, fun t ht => ?_, h.oports⟩, rfl, rfl⟩
+  rotate_left
+  · simp only [List.mem_append, List.mem_singleton] at ht
+    rcases ht with ht | rfl
+    · exact h.qports t ht
+    · exact hp
   simp only [List.mem_append, List.mem_singleton] at ht
   rcases ht with ht | rfl
   · exact h.queue t ht
@@ -87,24 +107,29 @@ theorem sndKeep_enqueue_syn (s : Tcb) (hd : Hdr) (hs : hd.ctl.syn = true) (hf : 
 theorem sndKeep_then_plain {s t : Tcb} (h1 : t.snd.iss = s.snd.iss) (h2 : t.snd.nxt = s.snd.nxt)
     (h3 : t.outgoing.retransmit = s.outgoing.retransmit) (h4 : t.outgoing.text = s.outgoing.text)
     (h5 : t.outgoing.oneshot = s.outgoing.oneshot)
-    (hd : Hdr) (hs : hd.ctl.syn = false) (hf : hd.ctl.fin = false) : SndKeep s (t.enqueueBuilt hd) :=
-  (SndKeep.of_eq h1 h2 h3 h4 h5).trans (sndKeep_enqueue_plain t hd hs hf)
+    (h6 : t.localPort = s.localPort) (h7 : t.remotePort = s.remotePort)
+    (hd : Hdr) (hs : hd.ctl.syn = false) (hf : hd.ctl.fin = false)
+    (hp : hd.srcPort = t.localPort ∧ hd.dstPort = t.remotePort) : SndKeep s (t.enqueueBuilt hd) :=
+  (SndKeep.of_eq h1 h2 h3 h4 h5 h6 h7).trans (sndKeep_enqueue_plain t hd hs hf hp)
 
 theorem sndKeep_then_syn {s t : Tcb} (h1 : t.snd.iss = s.snd.iss) (h2 : t.snd.nxt = s.snd.nxt)
     (h3 : t.outgoing.retransmit = s.outgoing.retransmit) (h4 : t.outgoing.text = s.outgoing.text)
     (h5 : t.outgoing.oneshot = s.outgoing.oneshot)
-    (hd : Hdr) (hs : hd.ctl.syn = true) (hf : hd.ctl.fin = false) (hseq : hd.seq = t.snd.iss) :
+    (h6 : t.localPort = s.localPort) (h7 : t.remotePort = s.remotePort)
+    (hd : Hdr) (hs : hd.ctl.syn = true) (hf : hd.ctl.fin = false) (hseq : hd.seq = t.snd.iss)
+    (hp : hd.srcPort = t.localPort ∧ hd.dstPort = t.remotePort) :
     SndKeep s (t.enqueueBuilt hd) :=
-  (SndKeep.of_eq h1 h2 h3 h4 h5).trans (sndKeep_enqueue_syn t hd hs hf hseq)
+  (SndKeep.of_eq h1 h2 h3 h4 h5 h6 h7).trans (sndKeep_enqueue_syn t hd hs hf hseq hp)
 
 /-- carry over along a state that differs in fields `SndBelow` does not read -/
 theorem SndKeep.of_eq_left {s t u : Tcb} (h1 : t.snd.iss = s.snd.iss) (h2 : t.snd.nxt = s.snd.nxt)
     (h3 : t.outgoing.retransmit = s.outgoing.retransmit) (h4 : t.outgoing.text = s.outgoing.text)
     (h5 : t.outgoing.oneshot = s.outgoing.oneshot)
-    (h : SndKeep t u) : SndKeep s u := (SndKeep.of_eq h1 h2 h3 h4 h5).trans h
+    (h6 : t.localPort = s.localPort) (h7 : t.remotePort = s.remotePort)
+    (h : SndKeep t u) : SndKeep s u := (SndKeep.of_eq h1 h2 h3 h4 h5 h6 h7).trans h
 
 theorem sndKeep_removeAcked (s : Tcb) (una : Seq) : SndKeep s (s.removeAckedFromRetransmission una) :=
-  ⟨rfl, rfl, rfl, fun h => h.congr rfl rfl (fun t ht => (List.mem_filter.1 ht).1) (fun _ hx => hx)⟩
+  ⟨rfl, rfl, rfl, fun h => h.congr rfl rfl (fun t ht => (List.mem_filter.1 ht).1) (fun _ hx => hx) rfl rfl, rfl, rfl⟩
 
 /-! ## the blocks of `process_segment` -/
 
@@ -124,7 +149,7 @@ theorem seqCheck_snd (s : Tcb) (seg : Hdr) (tl : Seq) (s' : Tcb) (r : Option Pro
     · cases e; exact SndKeep.refl _
     · rw [enqueueThen_eq] at e
       cases e
-      exact sndKeep_enqueue_plain _ _ rfl rfl
+      exact sndKeep_enqueue_plain _ _ rfl rfl ⟨rfl, rfl⟩
 
 theorem ackEstablished_snd (s : Tcb) (seg : Hdr) :
     ∃ s' r, s.ackEstablishedProcessing seg = .ok (s', r) ∧ SndKeep s s' := by
@@ -133,12 +158,12 @@ theorem ackEstablished_snd (s : Tcb) (seg : Hdr) :
   · exact ⟨_, _, rfl, SndKeep.refl _⟩
   · split
     · rw [enqueue_eq]
-      exact ⟨_, _, rfl, sndKeep_enqueue_plain _ _ rfl rfl⟩
+      exact ⟨_, _, rfl, sndKeep_enqueue_plain _ _ rfl rfl ⟨rfl, rfl⟩⟩
     · dsimp only
       have base : SndKeep s (({ s with snd.una := seg.ack } : Tcb).removeAckedFromRetransmission seg.ack) :=
-        SndKeep.of_eq_left (t := { s with snd.una := seg.ack }) rfl rfl rfl rfl rfl (sndKeep_removeAcked _ _)
+        SndKeep.of_eq_left (t := { s with snd.una := seg.ack }) rfl rfl rfl rfl rfl rfl rfl (sndKeep_removeAcked _ _)
       split
-      · exact ⟨_, _, rfl, base.trans (SndKeep.of_eq rfl rfl rfl rfl rfl)⟩
+      · exact ⟨_, _, rfl, base.trans (SndKeep.of_eq rfl rfl rfl rfl rfl rfl rfl)⟩
       · exact ⟨_, _, rfl, base⟩
 
 theorem afterAck_snd (t : Tcb) (seg : Hdr) (k : Tcb → ProcessSegmentResult → B) (P : B → Prop)
@@ -158,23 +183,23 @@ theorem ackBlock_snd (s : Tcb) (seg : Hdr) : ∃ s' r, ackBlock s seg = .ok (s',
       · split
         · exact ⟨_, _, rfl, SndKeep.refl _⟩
         · simp only [enqueueThen_eq]
-          exact ⟨_, _, rfl, sndKeep_enqueue_plain _ _ rfl rfl⟩
+          exact ⟨_, _, rfl, sndKeep_enqueue_plain _ _ rfl rfl ⟨rfl, rfl⟩⟩
       · split
         · split
-          · exact ⟨_, _, rfl, SndKeep.of_eq_left (t := { s with snd.una := seg.ack }) rfl rfl rfl rfl rfl
+          · exact ⟨_, _, rfl, SndKeep.of_eq_left (t := { s with snd.una := seg.ack }) rfl rfl rfl rfl rfl rfl rfl
               (sndKeep_removeAcked _ _)⟩
           · exact ⟨_, _, rfl, SndKeep.refl _⟩
         · simp only [enqueueThen_eq]
-          exact ⟨_, _, rfl, sndKeep_enqueue_plain _ _ rfl rfl⟩
+          exact ⟨_, _, rfl, sndKeep_enqueue_plain _ _ rfl rfl ⟨rfl, rfl⟩⟩
     · -- SYN-RECEIVED
       split
       · dsimp only
         refine afterAck_snd _ seg _ (fun x => ∃ s' r, x = .ok (s', r) ∧ SndKeep s s') ?_
         intro s1 r1 hs1
-        have hp : SndKeep s s1 := by refine SndKeep.of_eq_left ?_ ?_ ?_ ?_ ?_ hs1 <;> rfl
+        have hp : SndKeep s s1 := by refine SndKeep.of_eq_left ?_ ?_ ?_ ?_ ?_ ?_ ?_ hs1 <;> rfl
         split <;> exact ⟨_, _, rfl, hp⟩
       · simp only [enqueueThen_eq]
-        exact ⟨_, _, rfl, sndKeep_enqueue_plain _ _ rfl rfl⟩
+        exact ⟨_, _, rfl, sndKeep_enqueue_plain _ _ rfl rfl ⟨rfl, rfl⟩⟩
     iterate 3
       · refine afterAck_snd _ seg _ (fun x => ∃ s' r, x = .ok (s', r) ∧ SndKeep s s') ?_
         intro s1 r1 hs1
@@ -183,7 +208,7 @@ theorem ackBlock_snd (s : Tcb) (seg : Hdr) : ∃ s' r, ackBlock s seg = .ok (s',
       · refine afterAck_snd _ seg _ (fun x => ∃ s' r, x = .ok (s', r) ∧ SndKeep s s') ?_
         intro s1 r1 hs1
         dsimp only
-        split <;> split <;> exact ⟨_, _, rfl, hs1.trans (SndKeep.of_eq rfl rfl rfl rfl rfl)⟩
+        split <;> split <;> exact ⟨_, _, rfl, hs1.trans (SndKeep.of_eq rfl rfl rfl rfl rfl rfl rfl)⟩
     · refine afterAck_snd _ seg _ (fun x => ∃ s' r, x = .ok (s', r) ∧ SndKeep s s') ?_
       intro s1 r1 hs1
       split
@@ -199,11 +224,11 @@ theorem synBlock_snd (s : Tcb) (seg : Hdr) : ∃ s' r, synBlock s seg = .ok (s',
     · dsimp only
       split
       · simp only [enqueueThen_eq]
-        exact ⟨_, _, rfl, by refine sndKeep_then_plain ?_ ?_ ?_ ?_ ?_ _ ?_ ?_ <;> rfl⟩
+        exact ⟨_, _, rfl, by refine sndKeep_then_plain ?_ ?_ ?_ ?_ ?_ ?_ ?_ _ ?_ ?_ ⟨?_, ?_⟩ <;> rfl⟩
       · simp only [enqueueThen_eq]
-        exact ⟨_, _, rfl, by refine sndKeep_then_syn ?_ ?_ ?_ ?_ ?_ _ ?_ ?_ ?_ <;> rfl⟩
+        exact ⟨_, _, rfl, by refine sndKeep_then_syn ?_ ?_ ?_ ?_ ?_ ?_ ?_ _ ?_ ?_ ?_ ⟨?_, ?_⟩ <;> rfl⟩
     · simp only [enqueueThen_eq]
-      exact ⟨_, _, rfl, sndKeep_enqueue_plain _ _ rfl rfl⟩
+      exact ⟨_, _, rfl, sndKeep_enqueue_plain _ _ rfl rfl ⟨rfl, rfl⟩⟩
 
 theorem textBlock_snd (s : Tcb) (seg : Hdr) (text : List UInt8) (tl : Seq) (s' : Tcb)
     (r : Option ProcessSegmentResult) (e : textBlock s seg text tl = .ok (s', r)) : SndKeep s s' := by
@@ -219,7 +244,7 @@ theorem textBlock_snd (s : Tcb) (seg : Hdr) (text : List UInt8) (tl : Seq) (s' :
            | (simp at e; done)
            | (rw [enqueueThen_eq] at e
               cases e
-              refine sndKeep_then_plain ?_ ?_ ?_ ?_ ?_ _ ?_ ?_ <;> rfl))
+              refine sndKeep_then_plain ?_ ?_ ?_ ?_ ?_ ?_ ?_ _ ?_ ?_ ⟨?_, ?_⟩ <;> rfl))
 
 theorem finBlock_snd (s : Tcb) (seg : Hdr) (tl : Seq) (s' : Tcb) (r : Option ProcessSegmentResult)
     (e : finBlock s seg tl = .ok (s', r)) : SndKeep s s' := by
@@ -238,7 +263,7 @@ theorem finBlock_snd (s : Tcb) (seg : Hdr) (tl : Seq) (s' : Tcb) (r : Option Pro
       · split at h1
         · rw [enqueue_eq] at h1
           cases h1
-          refine sndKeep_then_plain ?_ ?_ ?_ ?_ ?_ _ ?_ ?_ <;> rfl
+          refine sndKeep_then_plain ?_ ?_ ?_ ?_ ?_ ?_ ?_ _ ?_ ?_ ⟨?_, ?_⟩ <;> rfl
         · cases h1; exact SndKeep.refl _
       · cases h1; exact SndKeep.refl _
     split at e
@@ -248,8 +273,8 @@ theorem finBlock_snd (s : Tcb) (seg : Hdr) (tl : Seq) (s' : Tcb) (r : Option Pro
       split at e
       all_goals first
         | (cases e; exact k)
-        | (cases e; exact k.trans (SndKeep.of_eq rfl rfl rfl rfl rfl))
-        | (split at e <;> (cases e; exact k.trans (SndKeep.of_eq rfl rfl rfl rfl rfl)))
+        | (cases e; exact k.trans (SndKeep.of_eq rfl rfl rfl rfl rfl rfl rfl))
+        | (split at e <;> (cases e; exact k.trans (SndKeep.of_eq rfl rfl rfl rfl rfl rfl rfl)))
 
 theorem processSegment_snd (s : Tcb) (segment : Segment) (s' : Tcb) (r : ProcessSegmentResult)
     (e : s.processSegment segment = .ok (s', r)) : SndKeep s s' := by
@@ -321,7 +346,7 @@ theorem drain_snd (fuel : Nat) (s s' : Tcb) (r : SegmentArrivesResult) (e : drai
             rw [hp] at e
             dsimp only at e
             have k0 := processSegment_snd _ _ _ _ hp
-            have k1 : SndKeep s s1 := by refine SndKeep.of_eq_left ?_ ?_ ?_ ?_ ?_ k0 <;> rfl
+            have k1 : SndKeep s s1 := by refine SndKeep.of_eq_left ?_ ?_ ?_ ?_ ?_ ?_ ?_ k0 <;> rfl
             split at e
             · cases e; exact k1
             · exact k1.trans (ih s1 e)
@@ -334,9 +359,9 @@ theorem segmentArrives_snd (s : Tcb) (segment : Segment) (s' : Tcb) (r : Segment
   · simp at e
   · rw [enqueue_eq] at e
     cases e
-    exact sndKeep_enqueue_plain _ _ rfl rfl
+    exact sndKeep_enqueue_plain _ _ rfl rfl ⟨rfl, rfl⟩
   · have k := drain_snd _ _ _ _ e
-    refine SndKeep.of_eq_left ?_ ?_ ?_ ?_ ?_ k <;> rfl
+    refine SndKeep.of_eq_left ?_ ?_ ?_ ?_ ?_ ?_ ?_ k <;> rfl
 
 /-! ## `segments()` and `close()` advance SND.NXT by what they append -/
 
@@ -346,22 +371,26 @@ structure SndGrow (s s' : Tcb) : Prop where
   mono : Room s → s.sent ≤ s'.sent
   below : SndBelow s → Room s → SndBelow s'
   room : Room s → s'.sent + s'.outgoing.text.length ≤ s.sent + s.outgoing.text.length + 1
+  lp : s'.localPort = s.localPort
+  rp : s'.remotePort = s.remotePort
 
 theorem SndKeep.grow {s s' : Tcb} (h : SndKeep s s') : SndGrow s s' := by
   have hs : s'.sent = s.sent := by unfold sent; rw [h.iss, h.nxt]
-  exact ⟨h.iss, fun _ => by rw [hs]; exact Nat.le_refl _, fun hb _ => h.below hb, fun _ => by rw [hs, h.text]; omega⟩
+  exact ⟨h.iss, fun _ => by rw [hs]; exact Nat.le_refl _, fun hb _ => h.below hb, fun _ => by rw [hs, h.text]; omega,
+    h.lp, h.rp⟩
 
 theorem segmentize_snd (maxSeg fuel : Nat) (s : Tcb) (q : Nat) (s' : Tcb)
     (e : segmentize maxSeg fuel s q = .ok s') (hb : SndBelow s) (hr : Room s) :
     s'.snd.iss = s.snd.iss ∧ s.sent ≤ s'.sent ∧ SndBelow s' ∧
-      s'.sent + s'.outgoing.text.length = s.sent + s.outgoing.text.length := by
+      s'.sent + s'.outgoing.text.length = s.sent + s.outgoing.text.length ∧
+      s'.localPort = s.localPort ∧ s'.remotePort = s.remotePort := by
   induction fuel generalizing s q with
-  | zero => unfold segmentize at e; cases e; exact ⟨rfl, Nat.le_refl _, hb, rfl⟩
+  | zero => unfold segmentize at e; cases e; exact ⟨rfl, Nat.le_refl _, hb, rfl, rfl, rfl⟩
   | succ n ih =>
     unfold segmentize at e
     dsimp only at e
     split at e
-    · cases e; exact ⟨rfl, Nat.le_refl _, hb, rfl⟩
+    · cases e; exact ⟨rfl, Nat.le_refl _, hb, rfl, rfl, rfl⟩
     · generalize hbytes : min (min maxSeg (s.snd.wnd.toNat - q)) s.outgoing.text.length = bytes at e
       split at e
       · simp at e
@@ -376,7 +405,18 @@ theorem segmentize_snd (maxSeg fuel : Nat) (s : Tcb) (q : Nat) (s' : Tcb)
           rw [hlen]; exact off_add _ _ _ (by unfold sent at hr; omega)
         have step := ih _ _ e
           (by
-            refine ⟨?_, fun t ht => ?_, hb.plain⟩
+            refine ⟨?_, fun t ht => ?_, hb.plain, fun t ht => ?_, hb.oports⟩
+            rotate_right
+            · simp only [List.mem_append, List.mem_singleton] at ht
+              rcases ht with ht | rfl
+              · exact hb.qports t ht
+              · have hh : header = s.ackHdr.built := by
+                  unfold Hdr.build at hbuild
+                  split at hbuild
+                  · simp at hbuild
+                  · simp only [Option.some.injEq] at hbuild; exact hbuild.symm
+                subst hh
+                exact ⟨rfl, rfl⟩
             · show 1 ≤ off s.snd.iss (s.snd.nxt + BitVec.ofNat 32 (List.take bytes s.outgoing.text).length)
               rw [hsent]; have := hb.pos; omega
             · show SegBelow s.snd.iss
@@ -402,8 +442,8 @@ theorem segmentize_snd (maxSeg fuel : Nat) (s : Tcb) (q : Nat) (s' : Tcb)
             show off s.snd.iss (s.snd.nxt + BitVec.ofNat 32 (List.take bytes s.outgoing.text).length) +
               (List.drop bytes s.outgoing.text).length + 1 < 2147483648
             rw [hsent, List.length_drop]; unfold sent at hr ⊢; omega)
-        obtain ⟨i1, m1, b1, r1⟩ := step
-        refine ⟨i1, ?_, b1, ?_⟩
+        obtain ⟨i1, m1, b1, r1, p1, p2⟩ := step
+        refine ⟨i1, ?_, b1, ?_, p1, p2⟩
         · have : s.sent ≤ off s.snd.iss (s.snd.nxt + BitVec.ofNat 32 (List.take bytes s.outgoing.text).length) := by
             rw [hsent]; omega
           exact Nat.le_trans this m1
@@ -415,7 +455,13 @@ theorem segmentize_snd (maxSeg fuel : Nat) (s : Tcb) (q : Nat) (s' : Tcb)
 theorem queueFin_snd (s s' : Tcb) (e : s.queueFin = .ok s') : SndGrow s s' := by
   rcases queueFin_forms _ _ e with ⟨_, rfl⟩ | ⟨ht, hn, ht', hr, hs, hf⟩
   · exact (SndKeep.refl _).grow
-  · have hiss : s'.snd.iss = s.snd.iss := by
+  · have hports0 : s'.localPort = s.localPort ∧ s'.remotePort = s.remotePort := by
+      unfold queueFin at e
+      rw [if_pos (by simp [ht]), enqueue_eq] at e
+      dsimp only at e
+      cases e
+      exact ⟨(enqueueBuilt_frame _ _).2.2.2.2.2.2.2.2.1, (enqueueBuilt_frame _ _).2.2.2.2.2.2.2.2.2⟩
+    have hiss : s'.snd.iss = s.snd.iss := by
       unfold queueFin at e
       rw [if_pos (by simp [ht]), enqueue_eq] at e
       dsimp only at e
@@ -426,7 +472,8 @@ theorem queueFin_snd (s s' : Tcb) (e : s.queueFin = .ok s') : SndGrow s s' := by
       unfold sent
       rw [hiss, hn]
       exact off_add_one _ _ (by unfold Room sent at hroom; omega)
-    refine ⟨hiss, fun hroom => by rw [hsent hroom]; omega, fun hb hroom => ?_, fun hroom => by rw [hsent hroom, ht', ht]; simp⟩
+    refine ⟨hiss, fun hroom => by rw [hsent hroom]; omega, fun hb hroom => ?_, fun hroom => by rw [hsent hroom, ht', ht]; simp,
+      hports0.1, hports0.2⟩
     have hone : s'.outgoing.oneshot = s.outgoing.oneshot := by
       unfold queueFin at e
       rw [if_pos (by simp [ht]), enqueue_eq] at e
@@ -434,7 +481,21 @@ theorem queueFin_snd (s s' : Tcb) (e : s.queueFin = .ok s') : SndGrow s s' := by
       cases e
       unfold enqueueBuilt
       rw [if_pos (by simp [finHdr, Hdr.built, Hdr.withFin, Hdr.withAck, Hdr.withWnd])]
-    refine ⟨by rw [hsent hroom]; omega, fun t hmem => ?_, fun x hx => hb.plain x (by rw [hone] at hx; exact hx)⟩
+    have hports : s'.localPort = s.localPort ∧ s'.remotePort = s.remotePort := by
+      unfold queueFin at e
+      rw [if_pos (by simp [ht]), enqueue_eq] at e
+      dsimp only at e
+      cases e
+      exact ⟨(enqueueBuilt_frame _ _).2.2.2.2.2.2.2.2.1, (enqueueBuilt_frame _ _).2.2.2.2.2.2.2.2.2⟩
+    refine ⟨by rw [hsent hroom]; omega, fun t hmem => ?_, fun x hx => hb.plain x (by rw [hone] at hx; exact hx),
+      fun t hmem => ?_, fun x hx => by rw [hports.1, hports.2]; exact hb.oports x (by rw [hone] at hx; exact hx)⟩
+    rotate_left
+    · rw [hports.1, hports.2]
+      rw [hr] at hmem
+      simp only [List.mem_append, List.mem_singleton] at hmem
+      rcases hmem with hmem | rfl
+      · exact hb.qports t hmem
+      · exact ⟨rfl, rfl⟩
     rw [hsent hroom, hiss]
     rw [hr] at hmem
     simp only [List.mem_append, List.mem_singleton] at hmem
@@ -456,8 +517,9 @@ theorem sent_congr {s s' : Tcb} (h1 : s'.snd.iss = s.snd.iss) (h2 : s'.snd.nxt =
 theorem segments_snd (s s' : Tcb) (out : List Segment) (e : s.segments = .ok (s', out))
     (hb : SndBelow s) (hr : Room s) :
     s'.snd.iss = s.snd.iss ∧ s.sent ≤ s'.sent ∧ SndBelow s' ∧
-      (∀ σ ∈ out, SegBelow s.snd.iss s'.sent σ) ∧
-      s'.sent + s'.outgoing.text.length ≤ s.sent + s.outgoing.text.length + 1 := by
+      (∀ σ ∈ out, SegBelow s.snd.iss s'.sent σ ∧ σ.hdr.srcPort = s.localPort ∧ σ.hdr.dstPort = s.remotePort) ∧
+      s'.sent + s'.outgoing.text.length ≤ s.sent + s.outgoing.text.length + 1 ∧
+      s'.localPort = s.localPort ∧ s'.remotePort = s.remotePort := by
   unfold segments at e
   dsimp only at e
   cases h1 : segmentizeIfOpen { s with outgoing.oneshot := [] } with
@@ -466,18 +528,19 @@ theorem segments_snd (s s' : Tcb) (out : List Segment) (e : s.segments = .ok (s'
     rw [h1] at e
     dsimp only at e
     have hb0 : SndBelow ({ s with outgoing.oneshot := [] } : Tcb) :=
-      ⟨hb.pos, hb.queue, fun x hx => by simp at hx⟩
+      ⟨hb.pos, hb.queue, fun x hx => by simp at hx, hb.qports, fun x hx => by simp at hx⟩
     have k1 : s1.snd.iss = s.snd.iss ∧ s.sent ≤ s1.sent ∧ SndBelow s1 ∧
-        s1.sent + s1.outgoing.text.length = s.sent + s.outgoing.text.length := by
+        s1.sent + s1.outgoing.text.length = s.sent + s.outgoing.text.length ∧
+        s1.localPort = s.localPort ∧ s1.remotePort = s.remotePort := by
       unfold segmentizeIfOpen at h1
       split at h1
       all_goals first
-        | (cases h1; exact ⟨rfl, Nat.le_refl _, hb0, rfl⟩)
+        | (cases h1; exact ⟨rfl, Nat.le_refl _, hb0, rfl, rfl, rfl⟩)
         | (split at h1
            · simp at h1
            · have g := segmentize_snd _ _ _ _ _ h1 hb0 hr
              exact g)
-    obtain ⟨i1, m1, b1, r1⟩ := k1
+    obtain ⟨i1, m1, b1, r1, lp1, rp1⟩ := k1
     have hr1 : Room s1 := by unfold Room at hr ⊢; omega
     cases h2 : finIfPending s.finPending s1 with
     | error err => rw [h2] at e; simp at e
@@ -496,41 +559,56 @@ theorem segments_snd (s s' : Tcb) (out : List Segment) (e : s.segments = .ok (s'
       have hq : s'.snd = s2.snd ∧ s'.outgoing.text = s2.outgoing.text ∧ s'.outgoing.oneshot = s2.outgoing.oneshot ∧
           s'.outgoing.retransmit = s2.outgoing.retransmit.map fun t => { t with needsTransmit := false } := by
         rw [← hs']; split <;> exact ⟨rfl, rfl, rfl, rfl⟩
+      have hpt : s'.localPort = s2.localPort ∧ s'.remotePort = s2.remotePort := by
+        rw [← hs']; split <;> exact ⟨rfl, rfl⟩
       have hsent : s'.sent = s2.sent := by unfold sent; rw [hq.1]
       have hiss : s'.snd.iss = s.snd.iss := by rw [hq.1]; exact i2
       have b' : SndBelow s' := by
-        refine ⟨by rw [hsent]; exact b2.pos, fun t ht => ?_, fun x hx => b2.plain x (by rw [hq.2.2.1] at hx; exact hx)⟩
-        rw [hq.2.2.2] at ht
-        obtain ⟨t0, ht0, rfl⟩ := List.mem_map.1 ht
-        rw [hsent, hq.1]
-        exact b2.queue t0 ht0
-      refine ⟨hiss, by rw [hsent]; exact Nat.le_trans m1 (k2.mono hr1), b', ?_, ?_⟩
+        refine ⟨by rw [hsent]; exact b2.pos, fun t ht => ?_, fun x hx => b2.plain x (by rw [hq.2.2.1] at hx; exact hx),
+          fun t ht => ?_, fun x hx => by rw [hpt.1, hpt.2]; exact b2.oports x (by rw [hq.2.2.1] at hx; exact hx)⟩
+        · rw [hq.2.2.2] at ht
+          obtain ⟨t0, ht0, rfl⟩ := List.mem_map.1 ht
+          rw [hsent, hq.1]
+          exact b2.queue t0 ht0
+        · rw [hq.2.2.2] at ht
+          obtain ⟨t0, ht0, rfl⟩ := List.mem_map.1 ht
+          rw [hpt.1, hpt.2]
+          exact b2.qports t0 ht0
+      have lp2 : s2.localPort = s.localPort := k2.lp.trans lp1
+      have rp2 : s2.remotePort = s.remotePort := k2.rp.trans rp1
+      refine ⟨hiss, by rw [hsent]; exact Nat.le_trans m1 (k2.mono hr1), b', ?_, ?_, hpt.1.trans lp2, hpt.2.trans rp2⟩
       · intro σ hσ
         rw [← hout] at hσ
         rcases List.mem_append.1 hσ with h | h
         · obtain ⟨hd, hhd, rfl⟩ := List.mem_map.1 h
           have hp := hb.plain hd hhd
-          refine ⟨fun hsyn => by rw [hp.1] at hsyn; simp at hsyn, fun hl => ?_⟩
+          refine ⟨⟨fun hsyn => by rw [hp.1] at hsyn; simp at hsyn, fun hl => ?_⟩, hb.oports hd hhd⟩
           simp [Segment.segLen, hp.1, hp.2] at hl
         · obtain ⟨t, ht, rfl⟩ := List.mem_map.1 h
           have := b2.queue t (List.mem_filter.1 ht).1
+          have hp := b2.qports t (List.mem_filter.1 ht).1
+          rw [lp2, rp2] at hp
           rw [hsent, ← i2]
-          exact this
+          exact ⟨this, hp⟩
       · rw [hsent, hq.2.1]
         have := k2.room hr1
         omega
 
 /-- **`close()`** -/
 theorem close_snd (s s' : Tcb) (r : CloseResult) (e : s.close = .ok (s', r)) : SndGrow s s' := by
-  have lift : ∀ t : Tcb, t.snd = s.snd → t.outgoing = s.outgoing → ∀ t', SndGrow t t' → SndGrow s t' := by
-    intro t h1 h2 t' g
+  have lift : ∀ t : Tcb, t.snd = s.snd → t.outgoing = s.outgoing → t.localPort = s.localPort →
+      t.remotePort = s.remotePort → ∀ t', SndGrow t t' → SndGrow s t' := by
+    intro t h1 h2 h3 h4 t' g
     have hs : t.sent = s.sent := by unfold sent; rw [h1]
     have hroom : Room s → Room t := by unfold Room; rw [hs, h2]; exact id
     have hbel : SndBelow s → SndBelow t := fun hb =>
       ⟨by rw [hs]; exact hb.pos, fun x hx => by rw [hs, h1]; exact hb.queue x (by rw [h2] at hx; exact hx),
-        fun x hx => hb.plain x (by rw [h2] at hx; exact hx)⟩
+        fun x hx => hb.plain x (by rw [h2] at hx; exact hx),
+        fun x hx => by rw [h3, h4]; exact hb.qports x (by rw [h2] at hx; exact hx),
+        fun x hx => by rw [h3, h4]; exact hb.oports x (by rw [h2] at hx; exact hx)⟩
     exact ⟨by rw [g.iss, h1], fun hr => by rw [← hs]; exact g.mono (hroom hr),
-      fun hb hr => g.below (hbel hb) (hroom hr), fun hr => by rw [← hs, ← h2]; exact g.room (hroom hr)⟩
+      fun hb hr => g.below (hbel hb) (hroom hr), fun hr => by rw [← hs, ← h2]; exact g.room (hroom hr),
+      g.lp.trans h3, g.rp.trans h4⟩
   unfold close at e
   split at e
   all_goals first
@@ -540,17 +618,19 @@ theorem close_snd (s s' : Tcb) (r : CloseResult) (e : s.close = .ok (s', r)) : S
        · rename_i t h1
          cases e
          have g := queueFin_snd _ _ h1
-         refine lift _ ?_ ?_ _ g <;> rfl)
+         refine lift _ ?_ ?_ ?_ ?_ _ g <;> rfl)
 
 /-- a fresh TCB (only its SYN numbered, empty queues) after queueing its SYN -/
 theorem sndBelow_fresh (t0 : Tcb) (hd : Hdr) (iss : Seq) (h1 : t0.snd.iss = iss) (h2 : t0.snd.nxt = iss + 1)
     (h3 : t0.outgoing.retransmit = []) (h4 : t0.outgoing.oneshot = [])
-    (hs : hd.ctl.syn = true) (hf : hd.ctl.fin = false) (hseq : hd.seq = iss) :
+    (hs : hd.ctl.syn = true) (hf : hd.ctl.fin = false) (hseq : hd.seq = iss)
+    (hp1 : hd.srcPort = t0.localPort) (hp2 : hd.dstPort = t0.remotePort) :
     SndBelow (t0.enqueueBuilt hd) ∧ (t0.enqueueBuilt hd).snd.iss = iss ∧ (t0.enqueueBuilt hd).sent = 1 := by
   have hsent : t0.sent = 1 := by
     unfold sent; rw [h1, h2, off_add_one iss iss (by rw [off_self]; omega), off_self]
-  have k := sndKeep_enqueue_syn t0 hd hs hf (by rw [hseq, h1])
+  have k := sndKeep_enqueue_syn t0 hd hs hf (by rw [hseq, h1]) ⟨hp1, hp2⟩
   have b0 : SndBelow t0 := ⟨by rw [hsent]; exact Nat.le_refl _, fun t ht => by rw [h3] at ht; simp at ht,
+    fun x hx => by rw [h4] at hx; simp at hx, fun t ht => by rw [h3] at ht; simp at ht,
     fun x hx => by rw [h4] at hx; simp at hx⟩
   exact ⟨k.below b0, by rw [k.iss, h1], by rw [sent_congr k.iss k.nxt, hsent]⟩
 
@@ -563,9 +643,9 @@ theorem open_snd (lp rp : U16) (iss : Seq) (mtu : U16) (s : Tcb) (e : Tcb.open l
   rw [enqueue_eq] at e
   cases e
   refine ⟨?_, ?_, ?_, ?_, ?_, ?_, ?_⟩
-  · refine (sndBelow_fresh _ _ iss ?_ ?_ ?_ ?_ ?_ ?_ ?_).1 <;> rfl
-  · refine (sndBelow_fresh _ _ iss ?_ ?_ ?_ ?_ ?_ ?_ ?_).2.1 <;> rfl
-  · refine (sndBelow_fresh _ _ iss ?_ ?_ ?_ ?_ ?_ ?_ ?_).2.2 <;> rfl
+  · refine (sndBelow_fresh _ _ iss ?_ ?_ ?_ ?_ ?_ ?_ ?_ ?_ ?_).1 <;> rfl
+  · refine (sndBelow_fresh _ _ iss ?_ ?_ ?_ ?_ ?_ ?_ ?_ ?_ ?_).2.1 <;> rfl
+  · refine (sndBelow_fresh _ _ iss ?_ ?_ ?_ ?_ ?_ ?_ ?_ ?_ ?_).2.2 <;> rfl
   · exact (enqueueBuilt_frame _ _).2.2.2.2.2.2.2.2.1
   · exact (enqueueBuilt_frame _ _).2.2.2.2.2.2.2.2.2
   · exact (enqueueBuilt_frame _ _).2.2.2.2.1
